@@ -14,6 +14,7 @@ BUILTIN_NAMES = {
     "dict", "reversed", "iter", "bool", "sorted", "sum", "any", "all", "enumerate", "zip",
     "print", "str", "int", "float", "callable", "id", "type", "super", "repr", "min", "max",
     "frozenset", "next", "filter", "map", "object", "hash", "abs", "round", "range", "vars", "open",
+    "ord", "chr", "unichr",
 }
 BUILTIN_EXC = None
 
@@ -156,7 +157,11 @@ def x_eval_module_expr(self, st, node, mod):
         self.cur_func = saved
         self._modexpr_depth = depth
         st.frames = saved_frames
-    if len(outs) == 1 and outs[0][1] == "val" and outs[0][0] is st and not isinstance(outs[0][2], Top):
+    if len(outs) == 1 and outs[0][1] == "val" and not isinstance(outs[0][2], Top):
+        o = outs[0][0]
+        if o is not st:
+            # evaluated in a fork (a comprehension) that is the only outcome: this state continues as that fork
+            st.heap, st.ghost, st.path, st.imprecise, st.trace, st.epoch = o.heap, o.ghost, o.path, o.imprecise, o.trace, o.epoch
         return outs[0][2]
     return KeyError
 
@@ -190,6 +195,8 @@ def x_module_table(self, st, node, mod, _depth=0):
             return self.x_resolved(st, r, unparse(node))
         if isinstance(r, tuple) and r[0] == "ext":
             return self.x_resolved(st, r, unparse(node))
+        if r is None and isinstance(node, ast.Name) and node.id in BUILTIN_NAMES:
+            return Builtin(node.id)     # NAME = chr
     try:
         return self.x_lift(st, self.ix.fold(node, mod))
     except NotConst:
@@ -1074,6 +1081,11 @@ def get_attr(self, st, base, attr, node, default=KeyError):
             return [(st, "val", ClassVal("bytes"))]
         if dn in ("six.integer_types",):
             return [(st, "val", (ClassVal("int"),))]
+        if dn == "sys.maxunicode":
+            return [(st, "val", 0x10FFFF)]
+        if dn == "sys.maxsize" and getattr(self, "int_sat", 2) > 2:
+            import sys as _sys
+            return [(st, "val", _sys.maxsize)]
         return [(st, "val", ModuleVal(dn))]
     if isinstance(base, SuperVal):
         mro = base.self_val_cls_mro if hasattr(base, "self_val_cls_mro") else None
